@@ -101,6 +101,10 @@ fn gen(rng: &mut Rng, idx: u64, tier: Tier) -> Case {
         for _ in 0..n_frames {
             if rng.chance(0.6) {
                 // position squitter
+                // very rarely the "aircraft" jumps (a transponder address used by two airframes, a test set, a
+                // GNSS glitch): the pair across the jump is inconsistent and skipped by the reference, the pairs
+                // after it are ordinary and must be decoded
+                if rng.chance(0.02) { let j = rng.bits(32); let (la2, lo2) = start_point(rng, j); ac.lat = la2; ac.lon = lo2; }
                 let step_m = if parked { 0.0 } else { rng.f64() * 300.0 };
                 ac.lat = (ac.lat + step_m * hdg.cos() / M_PER_DEG).clamp(-86.99, 86.99);
                 let coslat = ac.lat.to_radians().cos().max(0.05);
@@ -159,6 +163,7 @@ fn gen(rng: &mut Rng, idx: u64, tier: Tier) -> Case {
     delayed.sort_by_key(|e| e.0);
     for (dtm, b, tg) in delayed { lines.push(((dtm - prev).max(0), b, tg)); prev = prev.max(dtm); }
     gen::clock_steps_back(rng, &mut lines, 0.08);
+    gen::long_uptime(rng, &mut lines, 0.03);
     let ch = *rng.pick(&[Chunking::Line, Chunking::Line, Chunking::Line, Chunking::Pieces]);
     let mut script = Script::file(args, vec![]);
     script.tcp = rng.chance(0.25);
